@@ -726,6 +726,8 @@ def shrink(case, fails):
 
 
 def run(ctx):
+    # cases are small here and a remap that never terminates eats memory fast: a tighter allowance for the loop guard
+    common.LOOP_GUARD.seconds, common.LOOP_GUARD.steps = 25.0, 3000000
     n = {'quick': 15000, 'thorough': 450000}[ctx.tier]
     from checks.common.cases import run_case
     chains = [{'kind': 'chain', 'depth': d, 'kinds': k, 'visit': v} for d, k, v in
